@@ -876,6 +876,9 @@ class P(Prop):
                "is involved), so a parser defect shows up here as a disagreement",
                "addAnalyticalFeature: the model writes through the name at every index (Python hoists the index lookup); the algorithms used are read-only",
                "Float instances of the arithmetic in the driver (Drv/C01.lean: exact fmod by integer arithmetic, CPython's float_rem / float_pow rules, libm functions)",
+               "heap model (world sessions): in states where WHICH value a name reads depends on where the columns sit in the observations - a track that shares its "
+               "observations with a derived track after calls on that track, the sum of two tracks whose listings differ only in order, a sum that starts misaligned "
+               "(both inside the known-finding classes) - outcome, listed names, values per observation and coordinates are compared, not the column values",
                "never generated: 'timestamp' as an operand, assignment to 't', '!' , NaN thresholds of segmentation, CONVOLUTION / FILTER_FFT in the same history as "
                "the operators whose Python arithmetic raises (numpy scalars stored by the former never raise)"]
     rule = ("histories of API calls on tracks of 0..5 observations, values small integers (as floats) and NaN; after EVERY call: listed names, every column, every "
